@@ -68,6 +68,15 @@ class C09(Prop):
                 pool["queries"] = pool["queries"][:1]
                 if not G.pool_regions(pool):
                     break
+            else:
+                # could not draw a pool outside every known-defect region: strip it down to one that is
+                for qq in pool["queries"]:
+                    if G.query_regions(qq):
+                        qq["conds"] = qq.get("conds", [])[:0]
+                        if qq.get("rule"):
+                            qq["rule"]["children"] = []
+                        if qq.get("head") and G.query_regions(qq):
+                            qq["head"] = ["Solo", {"of": ["v", pool["vars"][0]["n"]]}]
         q = pool["queries"][0]
         style = rng.choice(["steps", "steps", "full", "the"])
         if style == "the":
